@@ -28,6 +28,7 @@ REAL_ENVS = [dict(media=[[13., 5e-3, 0.]]), dict(media=[[80., 4., 0.]]), dict(me
 
 
 RULE = RULE + ' Also two arrays of exactly vertical wires standing at different places (phased monopoles over ground, phased dipoles in free space).'
+RULE = RULE + ' Load sets include one load object on every pulse and once more on two of them.'
 
 
 def bounds(tier, seed):
